@@ -418,7 +418,7 @@ def isinstance_cond(ctx, path, v, cls):
         n = cls.name
         m = {"str": V.is_VStr(t), "bool": V.is_VBool(t), "int": z3.Or(V.is_VInt(t), V.is_VBool(t)),
              "float": V.is_VFloat(t), "list": V.is_VList(t), "tuple": V.is_VTuple(t),
-             "set": V.is_VSet(t), "frozenset": V.is_VSet(t), "dict": z3.Or(V.is_VRec(t), V.is_VDict(t)),
+             "set": z3.And(V.is_VSet(t), z3.Not(V.fz(t))), "frozenset": z3.And(V.is_VSet(t), V.fz(t)), "dict": z3.Or(V.is_VRec(t), V.is_VDict(t)),
              "NoneType": V.is_VNone(t), "type": V.is_VCls(t), "object": z3.BoolVal(True)}
         if n not in m:
             raise Unsupported(f"isinstance(_, {n})")
@@ -508,7 +508,7 @@ def call_builtin_special(ctx, fr, path, name, node):
                 yield path, Val(V.VList(smt.EMPTY_SEQ) if name == "list" else V.VTuple(smt.EMPTY_SEQ),
                                 ("list", None) if name == "list" else ("tuple", []), own="fresh")
             else:
-                yield path, ctx.mk_set(path, smt.EMPTY_SET)
+                yield path, ctx.mk_set(path, smt.EMPTY_SET, (name, None), frozen=(name == "frozenset"))
             return
         yield from eval_iterable_to_list(ctx, fr, path, args[0], name, node)
         return
@@ -642,9 +642,53 @@ def call_builtin(ctx, fr, path, name, args, kwargs, node=None):
 
 
 def py_hash(ctx, fr, path, v):
-    """hash(v): a function of the value's equality class. Scalars: function of the term."""
-    path.note("hash(x): uninterpreted function; equal scalars hash equally (CPython guarantee)")
-    return smt.pyhash(simp(v.t))
+    """hash(v) as an Int term. Scalars: uninterpreted function of the value; tuples: function of the element
+    hashes; frozensets built from a list: hash_fs(list) (a function of the multiset of elements, see prove.aux);
+    objects: their __hash__ (explicit, dataclass-generated, or identity)."""
+    path.note("hash(): uninterpreted; equal scalars hash equally; tuple/frozenset hashes are functions of element hashes / multisets")
+    k = ctx.kind(v)
+    t = simp(v.t)
+    if k == "VSet":
+        ctx.safety(path, V.fz(t), "hash() of a mutable set (unhashable)")
+        sid = simp(V.sid(t))
+        if z3.is_int_value(sid) and sid.as_long() in ctx.set_origin:
+            return ctx.func("hash_fs", smt.SeqV, smt.IntS)(ctx.set_origin[sid.as_long()])
+        return ctx.func("hash_setarr", smt.SetA, smt.IntS)(ctx.set_arr(path, v))
+    if k == "VTuple":
+        items = smt.unit_items(ctx.as_seq(path, v))
+        if items is not None:
+            hs = [V.VInt(py_hash(ctx, fr, path, Val(it, None))) for it in items]
+            return ctx.func("hash_tuple", smt.SeqV, smt.IntS)(smt.seq_of_list(hs))
+    if k == "VObj":
+        from .expr import possible_classes
+        classes = possible_classes(ctx, path, v)
+        if classes and len(classes) == 1:
+            ci = classes[0]
+            hm = ci.lookup("__hash__")
+            if hm is not None:
+                outs = list(call_function(ctx, fr, path, hm, [v], {}))
+                if len(outs) != 1:
+                    raise Unsupported("__hash__ forks")
+                return ctx.as_int(outs[0][0], outs[0][1])
+            dc = None
+            for c in ci.mro():
+                if c.dataclass and c.dc_eq:
+                    dc = c
+                    break
+            if dc is not None:
+                if not dc.frozen:
+                    raise Unsupported("hash of a non-frozen dataclass (unhashable)")
+                from .expr import _compare_fields
+                hs = []
+                for fname in _compare_fields(ci):
+                    fv = ctx.read_field(path, v, fname, ci.all_fields().get(fname))
+                    hs.append(V.VInt(py_hash(ctx, fr, path, fv)))
+                return ctx.func("hash_tuple", smt.SeqV, smt.IntS)(smt.seq_of_list(hs))
+            if ci.is_enum or ci.lookup("__eq__") is None:
+                return smt.pyhash(t)
+    if k == "VList" or k == "VDict" or k == "VRec":
+        ctx.safety(path, z3.BoolVal(False), "hash() of an unhashable value (list/dict)")
+    return smt.pyhash(t)
 
 
 # ------------------------------------------------------------------------------------------------ builtin methods
@@ -727,9 +771,10 @@ def str_method(ctx, fr, path, sv, name, args, kwargs, node):
         j = ctx.func("str_join", smt.StrS, smt.SeqV, smt.StrS)
         path.assume(j(sep, parts) == s)
         # first part: the text before the first separator
-        path.assume(z3.And(V.is_VStr(parts[0]), z3.PrefixOf(V.s(parts[0]), s), z3.Not(z3.Contains(V.s(parts[0]), sep))))
-        path.assume(z3.Implies(z3.Contains(s, sep), z3.PrefixOf(z3.Concat(V.s(parts[0]), sep), s)))
-        last = parts[z3.Length(parts) - 1]
+        p0 = smt.nth(parts, 0)
+        path.assume(z3.And(V.is_VStr(p0), z3.PrefixOf(V.s(p0), s), z3.Not(z3.Contains(V.s(p0), sep))))
+        path.assume(z3.Implies(z3.Contains(s, sep), z3.PrefixOf(z3.Concat(V.s(p0), sep), s)))
+        last = smt.nth(parts, z3.Length(parts) - 1)
         path.assume(z3.And(V.is_VStr(last), z3.SuffixOf(V.s(last), s), z3.Not(z3.Contains(V.s(last), sep))))
         path.assume(z3.Implies(z3.Contains(s, sep), z3.SuffixOf(z3.Concat(sep, V.s(last)), s)))
         ctx.split_terms.append((parts, sep, s))
@@ -796,7 +841,7 @@ def join_term(ctx, p, sep, seq):
     t = j(sep, seq)
     p.note("str.join over a symbolic list: uninterpreted with unit/empty instances")
     p.assume(z3.Implies(z3.Length(seq) == 0, t == z3.StringVal("")))
-    p.assume(z3.Implies(z3.Length(seq) == 1, t == V.s(seq[0])))
+    p.assume(z3.Implies(z3.Length(seq) == 1, t == V.s(smt.nth(seq, 0))))
     return t
 
 
@@ -853,7 +898,7 @@ def list_method(ctx, fr, path, lv, name, args, kwargs, node):
             idx = z3.IntVal(-1)
         ctx.safety(path, z3.And(idx < n, idx >= -n), "pop index in range", _where(node))
         i = simp(z3.If(idx < 0, n + idx, idx))
-        item = Val(simp(seq[i]), ea, own=lv.own)
+        item = Val(smt.nth(seq, i), ea, own=lv.own)
         ns = simp(z3.Concat(z3.Extract(seq, 0, i), z3.Extract(seq, i + 1, n - i - 1)))
         nv = Val(V.VList(ns), lv.ann, own=lv.own, deep=lv.deep, src=lv.src)
         for p in _mutate_receiver(ctx, fr, path, node, nv):
